@@ -267,7 +267,7 @@ pub fn run(p: &ClusterPlanC10, log: bool) -> (RunReport, String) {
         let mut w = World::new(b.seed, b.sched.clone());
         w.log_on = log;
         w.sndbuf_choices = b.sndbufs.clone();
-        let knobs = ClusterKnobs { worker: b.knobs.clone(), worker_timeout: p.worker_timeout, workers: 1 };
+        let knobs = ClusterKnobs { worker: b.knobs.clone(), worker_timeout: p.worker_timeout, workers: 1, automatic_restart: false };
         let rec = Arc::new(Mutex::new(CtlRecord::default()));
         let mut ids: (usize, usize, Vec<usize>, usize) = (0, 0, vec![], 0);
         let nclients = b.clients.len() as i64 + 1;
